@@ -995,7 +995,7 @@ func (c *c08) argIndex(call *ssa.Call, v ssa.Value) (*ssa.Function, *ssa.Paramet
 		return nil, nil
 	}
 	for i, a := range call.Common().Args {
-		if a == v && i < len(f.Params) {
+		if (a == v || c08Is(a, v)) && i < len(f.Params) {
 			return f, f.Params[i]
 		}
 	}
@@ -1025,7 +1025,7 @@ func (c *c08) locateContents(fn *ssa.Function, data *ssa.Parameter, depth int) (
 	if ucall != nil {
 		arg := ucall.Common().Args[0]
 		// (1) asn1.Unmarshal(data[off:], …)
-		if sl, ok := arg.(*ssa.Slice); ok && sl.X == ssa.Value(data) && sl.Low != nil && sl.High == nil && sl.Max == nil {
+		if sl, ok := arg.(*ssa.Slice); ok && c08Is(sl.X, data) && sl.Low != nil && sl.High == nil && sl.Max == nil {
 			// (1a) off computed by a helper: off, err := headerLen(data)
 			low := c08Strip(sl.Low)
 			if ex, isEx := low.(*ssa.Extract); isEx && ex.Index == 0 {
@@ -1059,7 +1059,7 @@ func (c *c08) locateContents(fn *ssa.Function, data *ssa.Parameter, depth int) (
 					ct := &c08Contents{g: h, gdata: hp, at: ucall, via: " (contents cut by helper " + h.Name() + ")"}
 					for _, ret := range c08SuccessReturns(h) {
 						sl, ok := ret.Results[0].(*ssa.Slice)
-						if !ok || sl.X != ssa.Value(hp) || sl.Low == nil || sl.High != nil || sl.Max != nil {
+						if !ok || !c08Is(sl.X, hp) || sl.Low == nil || sl.High != nil || sl.Max != nil {
 							return nil, "helper " + h.Name() + " does not return data[offset:]"
 						}
 						ct.offs = append(ct.offs, sl.Low)
@@ -1114,7 +1114,7 @@ func (c *c08) gssSkip(fname string) {
 				return false
 			}
 			ia, ok := u.X.(*ssa.IndexAddr)
-			if !ok || ia.X != ssa.Value(data) {
+			if !ok || !c08Is(ia.X, data) {
 				return false
 			}
 			k, isK := c08ConstInt(ia.Index)
@@ -1298,4 +1298,14 @@ func (c *c08) skipFormObserved(z *codec.Sym, f lin.Form, byteAt func(ssa.Value, 
 		}
 	}
 	return true
+}
+
+// c08Is: v is value `want` of the analysed function — directly, or as a load of
+// the single-assignment cell a captured parameter is spilled to.
+func c08Is(v, want ssa.Value) bool {
+	if v == want {
+		return true
+	}
+	r, fr := codec.Resolve(v, nil)
+	return fr == nil && r == want
 }
